@@ -10,8 +10,26 @@ Proved here for every environment and every input text:
   * `C20_reader_closed`: end to end — a failing read is a LexerError, a ParserError, `unsupported` or `fuel`;
   * `C20_annotated_items_nonempty`: the invariant that makes the only `throw (.py …)` of the parser model (the
     `items[-1]` of the GH#269 accumulator) unreachable.
+No hang (every environment, every input text):
+  * `C20_parser_no_hang`, `C20_parse_no_hang`: `parse_with_warnings` / `parse` never exhaust the model's fuel — every
+    loop of the parser (document, META, nested META, block children, section children, list, list item, bare-word /
+    number / annotated accumulators, flow expression, bracket capture, whitespace skipping …) consumes a token per
+    iteration, and the fuel `parse_document` hands out (`2·(tokens+2)+10` for the value / section call chain, twice
+    that for the document loop) covers the deepest chain;
+  * `C20_parseDocument_no_hang`: the same for `parse_document` on ANY parser state whose remaining tokens end with EOF
+    and contain at least as many `]` as `[`;
+  * `C20_lexer_tokens_eof`, `C20_lexer_tokens_balanced`: every lexer output has those two properties;
+  * `C20_parser_clean`: the combination — reading a text yields a document, a LexerError, a ParserError, or the
+    model's `unsupported` marker; nothing else.
+  * `C20_parseDocument_fuel_needs_balance`: the bracket-count hypothesis cannot be dropped — on the (lexer-unreachable)
+    token list `K :: [ [ [ [ [ [ [ [ [ [ [ EOF` the model's `parse_document` does run out of fuel (four calls per
+    bracket level against two units of fuel per token).  MODEL artefact, not a defect of the code.
+  * `C20_parseMetaOnly_no_hang`: `parse_meta_only` too (its fuel is computed after the envelope has been skipped; the
+    skipped tokens are not brackets, so the remaining suffix is still balanced).
+Open: a cost bound (steps are not charged by the model).
 -/
 import Octave.Lemmas.ParserClosed
+import Octave.Lemmas.ParserNoHangMeta
 namespace Octave.C20
 open Octave Parser
 
@@ -55,6 +73,72 @@ theorem C20_reader_closed (env : Env) (s : Str) :
   cases h : Parser.parseWithWarnings env s with
   | ok r => exact .inl ⟨r, rfl⟩
   | error e => exact .inr ⟨e, rfl, cleanRefusal_of_notPy (parseWithWarnings_closed env s e h)⟩
+
+/-! ### no hang -/
+
+/-- **`parse_with_warnings` never runs out of fuel.** -/
+theorem C20_parser_no_hang (env : Env) (s : Str) : Parser.parseWithWarnings env s ≠ .error .fuel :=
+  parseWithWarnings_no_fuel env s
+
+/-- **`parse` never runs out of fuel.** -/
+theorem C20_parse_no_hang (env : Env) (s : Str) : Parser.parse env s ≠ .error .fuel :=
+  parse_no_fuel env s
+
+/-- **`parse_meta_only` never runs out of fuel.** -/
+theorem C20_parseMetaOnly_no_hang (env : Env) (s : Str) : Parser.parseMetaOnly env s ≠ .error .fuel :=
+  parseMetaOnly_no_fuel env s
+
+theorem C20_parseDocument_no_hang (st : PState) (he : EofEnd st.rest) (hb : nS st.rest ≤ nE st.rest) :
+    parseDocument.run st ≠ .error .fuel :=
+  parseDocument_no_fuel st he hb
+
+theorem C20_lexer_tokens_eof (env : Env) (s : Str) (lenient : Bool) (toks : List Token) (reps : List Repair)
+    (h : Lexer.tokenize env s lenient = .ok (toks, reps)) : EofEnd toks :=
+  tokenize_eofEnd env s lenient toks reps h
+
+theorem C20_lexer_tokens_balanced (env : Env) (s : Str) (lenient : Bool) (toks : List Token) (reps : List Repair)
+    (h : Lexer.tokenize env s lenient = .ok (toks, reps)) : nS toks = nE toks :=
+  tokenize_balanced env s lenient toks reps h
+
+/-- **Reading is total and clean**: a document, or a positioned LexerError / ParserError, or `unsupported`. -/
+theorem C20_parser_clean (env : Env) (s : Str) :
+    (∃ r, Parser.parseWithWarnings env s = .ok r) ∨
+    (∃ c l k, Parser.parseWithWarnings env s = .error (.lexer c l k)) ∨
+    (∃ c l k, Parser.parseWithWarnings env s = .error (.parser c l k)) ∨
+    (∃ w, Parser.parseWithWarnings env s = .error (.unsupported w)) := by
+  cases h : Parser.parseWithWarnings env s with
+  | ok r => exact .inl ⟨r, rfl⟩
+  | error e =>
+    have h1 := parseWithWarnings_closed env s e h
+    have h2 := parseWithWarnings_no_fuel env s
+    cases e with
+    | lexer c l k => exact .inr (.inl ⟨c, l, k, rfl⟩)
+    | parser c l k => exact .inr (.inr (.inl ⟨c, l, k, rfl⟩))
+    | py cls => exact absurd rfl (h1 cls)
+    | unsupported w => exact .inr (.inr (.inr ⟨w, rfl⟩))
+    | fuel => exact absurd h h2
+
+/-- the token list `K :: [×11 EOF` (the lexer refuses the corresponding text: unbalanced brackets). -/
+def unbalancedToks : List Token :=
+  [{ type := .identifier, value := .str "K".toList, line := 1, col := 1 },
+   { type := .assign, value := .none, line := 1, col := 2 }]
+  ++ List.replicate 11 { type := .listStart, value := .none, line := 1, col := 4 }
+  ++ [{ type := .eof, value := .none, line := 1, col := 15 }]
+
+/-- the bracket-count hypothesis of `C20_parseDocument_no_hang` is needed (model artefact). -/
+theorem C20_parseDocument_fuel_needs_balance :
+    (match parseDocument.run (initState Env.ascii unbalancedToks false) with
+      | .error .fuel => true | _ => false) = true ∧
+    ¬ nS unbalancedToks ≤ nE unbalancedToks ∧ EofEnd unbalancedToks := by
+  refine ⟨by decide +kernel, by decide, ⟨_, rfl, rfl⟩⟩
+
+/-- … and the lexer does refuse that text. -/
+example : (match Parser.parseWithWarnings Env.ascii ("K::".toList ++ List.replicate 11 '[') with
+    | .error (.lexer code _ _) => String.ofList code | _ => "") = "E_UNBALANCED_BRACKET" := by decide +kernel
+
+/-- non-vacuity of the no-hang hypotheses: a real token list satisfies them. -/
+example : (match Lexer.tokenize Env.ascii "K::[a,[b]]\n".toList with
+    | .ok (toks, _) => decide (nS toks = nE toks) && decide (nS toks = 2) | .error _ => false) = true := by decide +kernel
 
 /-- non-vacuity: one accepted text, one refused with a ParserError, one refused by the lexer. -/
 example : (match Parser.parseWithWarnings Env.ascii "K::[a,b]\n".toList with | .ok _ => true | .error _ => false) = true := by
